@@ -49,7 +49,7 @@ def all_legacy(rng):
 
 
 def run(ctx):
-    sf = env.load_selfies()
+    sf = env.varied(env.load_selfies(), ctx)
     rng = ctx.rng
     quick = ctx.tier == "quick"
 
